@@ -1,7 +1,7 @@
 (** Extraction of the executable model (ExtrOcamlBasic only; numbers stay
     extracted inductives). *)
 From Coq Require Import Extraction ExtrOcamlBasic.
-From Oal Require Import Text Position Tag Unify Loader Merge SpecUri Cast Cycles Resolve Lsp.
+From Oal Require Import Text Position Tag Unify Loader Merge SpecUri Cast Cycles Resolve Lsp Peg Grammar.
 Extraction Language OCaml.
 Separate Extraction
   Text.len8s Text.len16s Text.crlf_wf Text.split_at8 Text.utf16
@@ -14,4 +14,5 @@ Separate Extraction
   Cast.check Cast.admits Cast.cast_ok Cast.known
   Cycles.cycles_check
   Resolve.resolve_module
-  Lsp.run.
+  Lsp.run
+  Grammar.parse_pure Grammar.parse_memo.
